@@ -30,8 +30,10 @@ CHECKS = [
              'include flag still yields the exact complement), points/lines/text (nothing), for ALL parameters, unit vectors and query points; '
              'include flag = exact complement for every value in {absent,True,False,1,0}; result shape = query shape for every class. '
              'Polygons: proved laws of the even-odd implementation (division-free form, edge symmetry, translation invariance, start-vertex and orientation independence, axis rectangles exact, '
-             'confinement to the vertex range via parity of straddling edges); "even-odd = inside" for arbitrary polygons is NOT a theorem '
-             '(needs Jordan curve) and is decided by the differential run against an exact-rational crossing oracle.',
+             'confinement to the vertex range via parity of straddling edges); the even-odd implementation is PROVED correct for every non-degenerate triangle '
+             '(true on the open triangle = strict convex combinations of the vertices, false off the closed triangle, both orientations) and, by the exact fan decomposition '
+             'pnpoly_fan + induction, for every strictly convex polygon with any number of vertices (true on the open polygon off the fan diagonals of one vertex, false outside); '
+             '"even-odd = inside" for arbitrary NON-convex simple polygons is NOT a theorem (needs Jordan curve) and is decided by the differential run against an exact-rational crossing oracle.',
      'note': 'Trusted: Lean kernel/Mathlib/3 std axioms; hand model Shapes.lean/Region.lean tied to the code by the correspondence run '
              '(exact rationals, boundary band 1e-9 excepted as C01 allows); np.cos/np.sin/np.hypot correct to a few ulp; the compiled pnpoly .so is what runs.'},
     {'property_id': 'C04',
@@ -49,7 +51,7 @@ CHECKS = [
              'point/line/text and any compound of them (induction, any depth) contains a rotated position exactly when the original contained the unrotated one; class, operator and include flags '
              'are preserved, area unchanged for EVERY class (polygons: the shoelace sum is rotation invariant, telescoping over the closed polygon), rotating back restores every parameter (all classes incl. polygons: vertex map). Translation: membership follows a translation for EVERY class '
              '(polygons included) and the bounding box of any region expression moves by exactly the integer shift (incl. the exact sqrt-floor ellipse box). '
-             'The mask of ANY region expression is unchanged by a whole-pixel translation and its box moves with it (mask_shift, center/subpixels, polygons via translation invariance of the even-odd rule). NOT a theorem: rotation invariance of the even-odd answer for polygons (partial theorem carries polygonFree); exact-mode masks under translation are checked on the real code.',
+             'The mask of ANY region expression is unchanged by a whole-pixel translation and its box moves with it (mask_shift, center/subpixels, polygons via translation invariance of the even-odd rule). Rotation invariance of the even-odd answer is proved for triangles and strictly convex polygons (pnpoly_triangle_rotate, pnpoly_convex_rotate: strictly inside off the fan diagonals / strictly outside); NOT a theorem for non-convex polygons (the region-expression theorem carries polygonFree); exact-mode masks under translation are checked on the real code.',
      'note': 'Trusted: Lean kernel/Mathlib/3 std axioms; hand model Region.lean (rotate/shift) tied by the correspondence run: rotated parameters within 1e-9*scale of the exact model values, '
              'membership compared outside a rounding band; original object fingerprinted before/after.'},
     {'property_id': 'C14',
